@@ -53,14 +53,16 @@ pub(crate) struct H {
 }
 
 impl H {
-    pub fn new(cfg: Cfg) -> H {
+    pub fn new(cfg: Cfg) -> H { H::new_with_resolver(cfg, None) }
+
+    pub fn new_with_resolver(cfg: Cfg, resolver: Option<Box<dyn OutboundAliasResolver + Send>>) -> H {
         let now = Instant::now();
         let config = ProtocolStateConfig {
             connect_options: ConnectOptions::builder().with_client_id("verif").with_keep_alive_interval_seconds(cfg.keep_alive).build(),
             base_timestamp: now,
             offline_queue_policy: cfg.policy,
             ping_timeout: Duration::from_millis(30000),
-            outbound_alias_resolver: None,
+            outbound_alias_resolver: resolver,
             protocol_mode: cfg.mode,
             post_reconnect_queue_drain_policy: cfg.drain,
             max_interrupted_retries: cfg.retries,
@@ -126,6 +128,20 @@ impl H {
     pub fn submit(&mut self, kind: Kind) -> u64 { let t = self.cfg.ack_timeout; self.submit_with_timeout(kind, t) }
 
     pub fn submit_sized(&mut self, kind: Kind, payload: usize) -> u64 { self.payload_len = payload; let t = self.cfg.ack_timeout; let r = self.submit_with_timeout(kind, t); self.payload_len = 3; r }
+
+    /// publish on an explicit topic (the tag is still recoverable from the results list)
+    pub fn submit_publish(&mut self, topic: &str, qos: QualityOfService, payload: usize) -> u64 {
+        let tag = self.next_tag; self.next_tag += 1;
+        self.log.push(format!("publish {} {:?} {}B #{}", topic, qos, payload, tag));
+        let results = self.results.clone();
+        let packet = Box::new(MqttPacket::Publish(PublishPacket { topic: topic.to_string(), qos, payload: Some(vec![7u8; payload]), ..Default::default() }));
+        let handler: ResponseHandler<PublishResult> = Box::new(move |r: PublishResult| {
+            let o = match r { Ok(_) => Outcome::Ok("published".into()), Err(e) => Outcome::Err(err_name(&e)) };
+            results.lock().unwrap().push((tag, o)); Ok(()) });
+        let event = UserEvent::Publish(packet, PublishOptionsInternal { options: PublishOptions::builder().build(), response_handler: Some(handler) });
+        self.ps.handle_user_event(UserEventContext { event, current_time: self.now });
+        tag
+    }
 
     pub fn submit_with_timeout(&mut self, kind: Kind, ack_timeout: Option<Duration>) -> u64 {
         let tag = self.next_tag; self.next_tag += 1;
